@@ -69,6 +69,14 @@ class Translator:
         self.opaque_decls = {}          # cname -> prototype text
         self._rec_cache = {}
         self.ctor_decls = {}
+        self.locals, self.ref_locals, self.alias = {}, set(), {}
+        self.pre, self.no_hoist, self.called = [], False, False
+        self.global_arrays = {}
+        self.global_fn_deps = set()
+        self.uses_tabs = False
+        self.opaque_arrays = set()
+        self.strlits = []
+        self.lib_rx = []
         self.cur = None
 
     # ================================================================== records
@@ -175,14 +183,40 @@ class Translator:
         return self.fns.get(m)
 
     # ================================================================== global constants
+    def global_by_name(self, qual):
+        cands = [n for n in self.db.byid.values() if n.get('kind') == 'VarDecl' and
+                 (n.get('_qual') == qual or (n.get('_qual') or '').endswith('::' + qual))
+                 and any(is_expr(k) for k in n.get('inner', []))]
+        ids = {c.get('mangledName') for c in cands}
+        if len(ids) != 1:
+            raise ExtractError('@global %s: %d matching definitions' % (qual, len(ids)))
+        saved = self.cur
+        if self.cur is None:
+            self.cur = CFunc()
+            self.cur.qual = self.cur.cname = '<globals>'
+        try:
+            return self.global_ref({'id': cands[0]['id'], 'name': cands[0]['name']})
+        finally:
+            self.cur = saved
+
     def global_ref(self, ref):
+        before = set(self.cur.calls)
+        try:
+            return self.global_ref_(ref)
+        finally:
+            self.global_fn_deps |= (self.cur.calls - before)
+
+    def global_ref_(self, ref):
         """reference to a namespace-scope constant: emitted as a macro of its initialiser"""
         d = self.full_decl(ref)
         name = ref['name']
         if d is None:
             raise ExtractError('%s: reference to global %s outside the dumped declarations'
                                % (self.cur.qual, name))
-        gname = 'G_' + ident(d.get('_qual', name)) if d.get('_qual') else 'G_' + name
+        gq = (d.get('_qual') or name).replace('(anonymous namespace)::', '')
+        if gq.startswith('Opm::'):
+            gq = gq[5:]
+        gname = 'G_' + ident(gq)
         if gname in self.globals:
             return gname
         inits = [k for k in d.get('inner', []) if is_expr(k)]
@@ -197,10 +231,43 @@ class Translator:
             raise ExtractError('global %s has no constant initialiser' % name)
         if 'const' not in d['type']['qualType'] and not d.get('constexpr'):
             raise ExtractError('global %s is not const' % name)
+        am = re.fullmatch(r'(.*)\[(\d+)\]', strip_cv(d['type'].get('desugaredQualType') or d['type']['qualType']))
+        if am:
+            return self.global_array(d, gname, inits[-1], am.group(1), int(am.group(2)))
         self.globals[gname] = None
         txt = self.e(inits[-1])
         ct = self.ty(d)
         self.globals[gname] = '#define %s ((%s)(%s))' % (gname, ct, txt)
+        self.global_order.append(gname)
+        return gname
+
+    def global_array(self, d, gname, init, elem, n):
+        """constant namespace-scope array: an accessor function  G_name(i)  over its initialisers"""
+        x = init
+        while x.get('kind') in ('ExprWithCleanups', 'ImplicitCastExpr', 'ConstantExpr') and x.get('inner'):
+            x = x['inner'][0]
+        if x.get('kind') != 'InitListExpr':
+            raise ExtractError('global array %s: initialiser is %s' % (gname, x.get('kind')))
+        try:
+            ect = self.tm.c(elem)
+        except ExtractError:
+            ect = None
+        self.globals[gname] = None
+        if ect is None or ect not in SCALAR_C:
+            self.globals[gname] = '/* array %s of unmodelled element type %s */' % (gname, elem)
+            self.global_order.append(gname)
+            self.opaque_arrays.add(gname)
+            return gname
+        elems = [y for y in x.get('inner', []) if y]
+        lines = ['static %s %s(c_long verif_i)' % (ect, gname), '{', '    switch (verif_i) {']
+        for j, y in enumerate(elems):
+            lines.append('    case %d: return %s;' % (j, self.e(y)))
+        for j in range(len(elems), n):
+            lines.append('    case %d: return 0;' % j)
+        lines.append('    default: __CPROVER_assert(0, "%s: index within the %d-element table"); { %s verif_u; return verif_u; }' % (gname, n, ect))
+        lines += ['    }', '}']
+        self.global_arrays[gname] = ('\n'.join(lines), ect, n)
+        self.globals[gname] = '/* array %s -> accessor */' % gname
         self.global_order.append(gname)
         return gname
 
@@ -338,10 +405,45 @@ class Translator:
         return self._arrow(base) + name
 
     def e_ArraySubscriptExpr(self, n, i):
+        base = i[0]
+        b0 = base
+        while b0.get('kind') in ('ImplicitCastExpr', 'ParenExpr') and b0.get('inner'):
+            b0 = b0['inner'][0]
+        if b0.get('kind') == 'DeclRefExpr' and b0['referencedDecl'].get('kind') == 'VarDecl' \
+                and b0['referencedDecl']['id'] not in self.locals:
+            g = self.global_ref(b0['referencedDecl'])
+            if g in self.global_arrays:
+                return '%s(%s)' % (g, self.e(i[1]))
+        try:
+            bt = self.tm.tname(base['type'])
+        except ExtractError:
+            bt = None
+        if bt == 'c_tabid':
+            self.uses_tabs = True
+            return 'verif_tab_at(%s, %s)' % (self.e(base), self.e(i[1]))
         return '%s[%s]' % (self.e(i[0]), self.e(i[1]))
+
+    def e_StringLiteral(self, n, i):
+        v = n.get('value', '""')
+        if v not in self.strlits:
+            self.strlits.append(v)
+        return '((c_strid)%d /* %s */)' % (self.strlits.index(v) + 1, v.replace('*/', '* /'))
 
     def _cast(self, n, i, explicit):
         ck = n.get('castKind')
+        if ck == 'ArrayToPointerDecay':
+            try:
+                tt = self.ty(n)
+            except ExtractError:
+                tt = None
+            b0 = i[-1]
+            if tt in ('c_tabid', 'c_opaque') and b0.get('kind') == 'DeclRefExpr' and b0['referencedDecl'].get('kind') == 'VarDecl':
+                g = self.global_ref(b0['referencedDecl'])
+                if tt == 'c_opaque' or g in self.opaque_arrays:
+                    return '((c_opaque)0)'
+                if g in self.global_arrays:
+                    self.uses_tabs = True
+                    return 'TAB_' + g
         x = self.e(i[-1]) if i else ''
         if ck in ('LValueToRValue', 'NoOp', 'FunctionToPointerDecay', 'ArrayToPointerDecay',
                   'ConstructorConversion', 'UserDefinedConversion', 'DerivedToBase', 'UncheckedDerivedToBase'):
@@ -677,6 +779,12 @@ class Translator:
                 return '%s(%s)' % (name, A(0))
             if name in ('move', 'forward', 'as_const'):
                 return A(0)
+            if name in ('quiet_NaN', 'signaling_NaN') and not args:
+                self.cur.stubs.add('NaN as an unspecified real')
+                return 'V_NAN'
+            if name == 'infinity' and not args:
+                self.cur.stubs.add('infinity as an unspecified real')
+                return 'V_INFINITY'
             if name in self.lib:
                 self.cur.stubs.add(self.lib[name])
                 return '%s(%s)' % (self.lib[name], ', '.join(self.lib_arg(a) for a in args))
@@ -690,6 +798,9 @@ class Translator:
                     return 'VEC_AT(%s, %s)' % (A(0), A(1))
             if name == 'operator=' :
                 ct = self.tm.tname(args[0]['type'])
+                if ct == 'c_opaque':
+                    self.cur.dropped.append(('assignment to unmodelled (opaque) object', self._line(n)))
+                    return '((void)0)'
                 if ct in self.tm.kinds:
                     return '%s = %s' % (A(0), A(1))
             if name in ('operator*', 'operator->') and fam in ('std::optional', 'optional') and len(args) == 1:
@@ -737,9 +848,30 @@ class Translator:
             if any(rx.search(q) for rx in self.opaque_ok):
                 return self.opaque_call(n, q, full, ptr or o, args)
         q = (full or {}).get('_qual', name)
+        for rx, macro in self.lib_rx:
+            if rx.search(q):
+                al = []
+                if obj is not None:
+                    al.append(obj[2] or obj[1])
+                al += [self.lit_or_expr(a) for a in args if a.get('kind') != 'CXXDefaultArgExpr']
+                self.cur.stubs.add(macro)
+                return '%s(%s)' % (macro, ', '.join(al))
         if any(rx.search(q) for rx in self.opaque_ok):
             return self.opaque_call(n, q, full, None, args)
         self.abort(n, 'call of %s' % q)
+
+    def lit_or_expr(self, a):
+        """argument of a library macro: a std::string built from a literal is passed as its literal id"""
+        x = a
+        while x.get('kind') in ('MaterializeTemporaryExpr', 'CXXBindTemporaryExpr', 'ImplicitCastExpr', 'ExprWithCleanups',
+                                'CXXConstructExpr', 'CXXFunctionalCastExpr') and x.get('inner'):
+            ch = [y for y in x['inner'] if y and y.get('kind') != 'CXXDefaultArgExpr']
+            if len(ch) != 1:
+                break
+            x = ch[0]
+        if x.get('kind') == 'StringLiteral':
+            return self.e(x)
+        return self.e(a)
 
     def lib_arg(self, a):
         x = self.e(a)
@@ -1418,6 +1550,22 @@ class Translator:
     # ================================================================== unit emission
     def emit_globals(self):
         return '\n'.join(self.globals[g] for g in self.global_order) + '\n'
+
+    def emit_global_arrays(self):
+        out = [t for t, _, _ in self.global_arrays.values()]
+        reals = [g for g, (_, ect, _) in self.global_arrays.items() if ect == 'real_t']
+        if reals:
+            out.append('enum { TAB_NONE = 0, %s, TAB_END };\n#define TAB_VALID(t) ((t) > TAB_NONE && (t) < TAB_END)' % ', '.join('TAB_%s' % g for g in reals))
+            out.append('static real_t verif_tab_at(c_tabid t, c_long i)\n{\n    switch (t) {')
+            for g in reals:
+                out.append('    case TAB_%s: return %s(i);' % (g, g))
+            out.append('    default: __CPROVER_assert(0, "table pointer refers to a known constant table"); { real_t verif_u; return verif_u; }')
+            out.append('    }\n}')
+        for j, v in enumerate(self.strlits):
+            nm = re.sub(r'[^A-Za-z0-9]+', '_', v.strip('"')).strip('_')
+            if nm:
+                out.append('#define STR_%s %d' % (nm, j + 1))
+        return '\n'.join(out) + '\n'
 
     def emit_opaque(self):
         out = []
